@@ -140,7 +140,7 @@ func firstLeaf(err error) int64 {
 	return l[0]
 }
 
-var onceImpls = []string{"worker", "operation", "producer", "processor", "handler", "future", "adt", "adtdo", "mnemonize", "ftonce", "ftoncedo"}
+var onceImpls = []string{"worker", "operation", "producer", "processor", "handler", "future", "adt", "adtdo", "adtdoonly", "adtdo-then-resolve", "mnemonize", "ftonce", "ftoncedo"}
 var limitImpls = []string{"worker", "producer", "processor", "future", "operation"}
 var lockImpls = []string{"worker", "operation", "producer", "processor", "handler", "future",
 	"worker-with", "operation-with", "producer-with", "processor-with", "handler-with", "future-with"}
@@ -157,6 +157,14 @@ func concCases(run *kit.Run) []Case {
 		for _, impl := range limitImpls {
 			cs = append(cs, Case{Kind: "conc", Conc: &Conc{What: "limit", Impl: impl, K: r.Range(2, 8), M: r.Range(1, 6), N: r.Range(1, 5)}})
 			cs = append(cs, Case{Kind: "conc", Conc: &Conc{What: "limit", Impl: impl, K: r.Range(2, 4), M: 1, N: r.Range(3, 5)}})
+		}
+		// high-contention rounds with the number of calls close to n (no traces: the counts are the oracle)
+		for _, impl := range limitImpls {
+			n := r.Range(2000, 6000) * 8
+			for _, c := range []int{n, n + 1, n + 8, n - r.Range(1, 50), n / 2} {
+				cs = append(cs, Case{Kind: "conc", Conc: &Conc{What: "limitstress", Impl: impl, K: 8, N: n, M: c, R: run.Pick(3, 6)}})
+			}
+			cs = append(cs, Case{Kind: "conc", Conc: &Conc{What: "limitstress", Impl: impl, K: r.Range(2, 16), N: r.Range(50, 400), M: r.Range(50, 400), R: run.Pick(20, 60)}})
 		}
 		for _, impl := range lockImpls {
 			cs = append(cs, Case{Kind: "conc", Conc: &Conc{What: "lock", Impl: impl, K: r.Range(2, 8), M: r.Range(1, 12)}})
@@ -182,6 +190,20 @@ func execConc(run *kit.Run, c Case, verbose bool) {
 		fails, evs, info = concOnce(cc.Impl, cc.K)
 	case "limit":
 		fails, evs, info = concLimit(cc.Impl, cc.K, cc.M, cc.N)
+	case "limitstress":
+		fails, info = concLimitStress(cc.Impl, cc.K, cc.N, cc.M, cc.R)
+		if verbose {
+			fmt.Printf("concurrent limit stress impl=%s K=%d n=%d calls=%d rounds=%d: %s\n", cc.Impl, cc.K, cc.N, cc.M, cc.R, info)
+		}
+		for _, f := range fails {
+			if verbose {
+				fmt.Printf("ORACLE FAIL %s: %s\n", f.sig, f.detail)
+			}
+			run.OracleFail(c.ID, f.sig, f.detail, c, map[string]any{"info": info})
+		}
+		run.Count("conc/limitstress")
+		run.Case(c.ID, c, "", fmt.Sprintf("conc|limitstress|%s|%d|%d|%d", cc.Impl, cc.K, cc.N, cc.M), true)
+		return
 	case "lock":
 		fails, evs, info = concLock(cc.Impl, cc.K, cc.M)
 	case "launch":
@@ -203,6 +225,15 @@ func execConc(run *kit.Run, c Case, verbose bool) {
 	}
 	run.Count("conc/" + cc.What)
 	what := map[string]string{"once": "NOnce", "limit": "NLimit", "lock": "NLock"}[cc.What]
+	adtParam := -1
+	if cc.What == "once" {
+		switch cc.Impl {
+		case "adt": // NewOnce + Resolve
+			what, adtParam = "NAdtOnce", 1
+		case "adtdoonly":
+			what, adtParam = "NAdtOnce", 0
+		}
+	}
 	if cc.What == "launch" {
 		what = specByName(cc.Impl).net
 	}
@@ -210,6 +241,9 @@ func execConc(run *kit.Run, c Case, verbose bool) {
 	param := cc.N
 	if cc.What == "launch" && !specByName(cc.Impl).multi {
 		param = 1
+	}
+	if adtParam >= 0 {
+		param = adtParam
 	}
 	exec := "false" // limitExec (runs under the mutex) vs. Operation.Limit (runs may overlap)
 	if cc.What == "limit" && cc.Impl != "operation" {
@@ -243,6 +277,7 @@ func concOnce(impl string, K int) (fails []fail, evs []cev, info string) {
 	}
 	ctx := context.Background()
 	var call func(t int64) int64 // returns an encoding of what the caller saw
+	after := func() int64 { return 0 } // checked once every caller has returned; 0 = as expected
 	switch impl {
 	case "worker":
 		w := fun.Worker(func(context.Context) error { body(); return resErr }).Once()
@@ -275,6 +310,25 @@ func concOnce(impl string, K int) (fails []fail, evs []cev, info string) {
 		f := func() int64 { body(); return val }
 		call = func(int64) int64 { o.Do(f); return o.Resolve() }
 		want = val
+	case "adtdoonly":
+		// callers use Do alone: it must not return before the one execution has finished
+		o := &adt.Once[int64]{}
+		f := func() int64 { body(); return val }
+		call = func(int64) int64 { o.Do(f); return 0 }
+		after = func() int64 { return o.Resolve() - val }
+	case "adtdo-then-resolve":
+		// the first caller uses Do, the later ones Resolve (and vice versa for the last): both entry points share the sync.Once
+		o := &adt.Once[int64]{}
+		f := func() int64 { body(); return val }
+		call = func(t int64) int64 {
+			if t%2 == 0 {
+				o.Do(f)
+				return o.Resolve()
+			}
+			o.Set(f)
+			return o.Resolve()
+		}
+		want = val
 	case "mnemonize":
 		f := adt.Mnemonize(func() int64 { body(); return val })
 		call = func(int64) int64 { return f() }
@@ -295,24 +349,27 @@ func concOnce(impl string, K int) (fails []fail, evs []cev, info string) {
 	got := make([]int64, K)
 	var wg sync.WaitGroup
 	alldone := make(chan struct{})
-	for t := 0; t < K; t++ {
-		wg.Add(1)
-		go func(t int) {
-			defer wg.Done()
-			cm.set(int64(t))
-			rc.rec("call", int64(t), 0)
-			entered.Add(1)
-			v := call(int64(t))
-			early[t] = !finished.Load() // read right after our call returned
-			got[t] = v
-			rc.rec("ret", int64(t), v)
-		}(t)
+	caller := func(t int) {
+		defer wg.Done()
+		cm.set(int64(t))
+		rc.rec("call", int64(t), 0)
+		entered.Add(1)
+		v := call(int64(t))
+		early[t] = !finished.Load() // read right after our call returned
+		got[t] = v
+		rc.rec("ret", int64(t), v)
+	}
+	// the first caller goes in alone and is parked inside the body on the driver's channel ...
+	wg.Add(K)
+	go caller(0)
+	ran := waitChan(started)
+	// ... the others are invoked now, while the one execution is in progress
+	for t := 1; t < K; t++ {
+		go caller(t)
 	}
 	go func() { wg.Wait(); close(alldone) }()
-
-	ran := waitChan(started)
 	allIn := waitFor(func() bool { return entered.Load() == int64(K) })
-	time.Sleep(grace)
+	time.Sleep(grace) // gives a defective implementation the time to let a caller through; not evidence
 	close(release)
 	if !waitChan(alldone) {
 		bad("Once:stuck", "%s: not every caller returned within %v of the execution finishing", impl, deadline)
@@ -335,6 +392,9 @@ func concOnce(impl string, K int) (fails []fail, evs []cev, info string) {
 			bad("Once:result", "%s: caller %d observed %d, the execution produced %d", impl, t, got[t], want)
 			break
 		}
+	}
+	if d := after(); d != 0 {
+		bad("Once:result", "%s: after all callers returned the cached value is off by %d", impl, d)
 	}
 	return fails, rc.sorted(), fmt.Sprintf("executions=%d callers=%d", inv.Load(), K)
 }
@@ -766,4 +826,94 @@ func concLaunch(name string, n int) (fails []fail, evs []cev, info string) {
 		}
 	}
 	return fails, rc.sorted(), fmt.Sprintf("bodies=%d finished-at-waiter-return=%d", n, finishedAtReturn)
+}
+
+// ---------------------------------------------------------------- Limit(n): exact count under high contention
+//
+// K goroutines released together by a barrier issue c calls in total in tight loops, c close to n; the wrapped
+// function only counts.  At quiescence executions must be exactly min(n, c); two further calls must then execute
+// only if c < n.  Many rounds, GOMAXPROCS >= 8.  The verdict is an exact count: no false alarm is possible.
+func concLimitStress(impl string, K, n, c, rounds int) (fails []fail, info string) {
+	bad := func(sig, f string, a ...any) { fails = append(fails, fail{"C15:" + sig, fmt.Sprintf(f, a...)}) }
+	if runtime.GOMAXPROCS(0) < 8 {
+		defer runtime.GOMAXPROCS(runtime.GOMAXPROCS(8))
+	}
+	ctx := context.Background()
+	worst, short, over := 0, 0, 0
+	for round := 0; round < rounds; round++ {
+		var inv atomic.Int64
+		var call func()
+		switch impl {
+		case "worker":
+			w := fun.Worker(func(context.Context) error { inv.Add(1); return nil }).Limit(n)
+			call = func() { _ = w(ctx) }
+		case "producer":
+			p := fun.Producer[int64](func(context.Context) (int64, error) { return inv.Add(1), nil }).Limit(n)
+			call = func() { _, _ = p(ctx) }
+		case "processor":
+			p := fun.Processor[int64](func(context.Context, int64) error { inv.Add(1); return nil }).Limit(n)
+			call = func() { _ = p(ctx, 1) }
+		case "future":
+			f := fun.Future[int64](func() int64 { return inv.Add(1) }).Limit(n)
+			call = func() { _ = f() }
+		case "operation":
+			op := fun.Operation(func(context.Context) { inv.Add(1) }).Limit(n)
+			call = func() { op(ctx) }
+		default:
+			panic("bad limit impl " + impl)
+		}
+		var ready, wg sync.WaitGroup
+		gate := make(chan struct{})
+		alldone := make(chan struct{})
+		for t := 0; t < K; t++ {
+			m := c / K
+			if t < c%K {
+				m++
+			}
+			ready.Add(1)
+			wg.Add(1)
+			go func(m int) {
+				defer wg.Done()
+				ready.Done()
+				<-gate
+				for j := 0; j < m; j++ {
+					call()
+				}
+			}(m)
+		}
+		ready.Wait()
+		close(gate)
+		go func() { wg.Wait(); close(alldone) }()
+		if !waitChan(alldone) {
+			bad("Limit:stuck", "%s.Limit(%d): callers did not return within %v", impl, n, deadline)
+			return fails, "stuck"
+		}
+		want := int64(min(n, c))
+		got := inv.Load()
+		if got != want {
+			if got < want {
+				short++
+			} else {
+				over++
+			}
+			if d := int(want - got); d > worst || -d > worst {
+				worst = d
+				if worst < 0 {
+					worst = -worst
+				}
+			}
+		}
+		// quiescent: two more calls execute iff the limit has not been reached
+		call()
+		call()
+		if want2 := int64(min(n, c+2)); got == want && inv.Load() != want2 {
+			bad("Limit:count", "%s.Limit(%d): after %d calls two further calls brought the executions to %d, want %d", impl, n, c, inv.Load(), want2)
+			break
+		}
+	}
+	if short+over > 0 {
+		bad("Limit:count", "%s.Limit(%d): %d calls from %d goroutines: in %d of %d rounds fewer and in %d rounds more than min(n, calls) = %d executions (worst difference %d)",
+			impl, n, c, K, short, rounds, over, min(n, c), worst)
+	}
+	return fails, fmt.Sprintf("rounds=%d short=%d over=%d", rounds, short, over)
 }
